@@ -423,8 +423,6 @@ def _group(view, a, ordered):
         L = a["time_interval_length"]
         if L is None:
             res = True
-        elif L == 0:
-            res = None
         elif ts:
             res = max(view.end[t] for t in ts) - min(view.start[t] for t in ts) <= L
     if ordered:
